@@ -191,7 +191,8 @@ func (b *BitArray) Xor(other *BitArray) error {
 	if b.size != other.size {
 		return errors.New("IllegalArgumentException: Sizes don't match")
 	}
-	for i := 0; i < len(b.bits); i++ {
+	// only the words that hold bits: two arrays of the same size can differ in capacity
+	for i := 0; i < (b.size+31)/32; i++ {
 		b.bits[i] ^= other.bits[i]
 	}
 	return nil
@@ -215,6 +216,9 @@ func (b *BitArray) GetBitArray() []uint32 {
 }
 
 func (b *BitArray) Reverse() {
+	if b.size == 0 {
+		return
+	}
 	newBits := make([]uint32, len(b.bits))
 	len := (b.size - 1) / 32
 	oldBitsLen := len + 1
